@@ -84,6 +84,14 @@ def replay_case(case):
                 mm.add("" if ev["v"] == "empty" else ev["v"], arch[ev["a"]], uid_arg(ev["m"], ev["uform"], mods),
                        "module-tag-1" if ev["koji"] == "tag" else "", PATHS[ev["path"]],
                        "package" if ev["cat"] == "invalid" else ev["cat"], rl)
+            elif ev["op"] == "treedump":
+                buf = io.StringIO()
+                xf.dump_for_tree(buf, ev["v"], arch[ev["a"]], "/".join(ev["base"]))
+                listed = [d["file"] for d in json.loads(buf.getvalue())["data"]]
+                if listed != ["/".join(p) for p in ev["listed"]]:
+                    fails.append("step %d dump_for_tree(%s, %s, base=%s) lists %s, model %s" % (step, ev["v"], arch[ev["a"]], "/".join(ev["base"]),
+                                                                                              listed, ["/".join(p) for p in ev["listed"]]))
+                    return fails
             else:
                 xf.add("" if ev["v"] == "empty" else ev["v"], arch[ev["a"]], xf_path(ev["path"]), SIZES[ev["size"]],
                        copy.deepcopy(CKS[ev["cks"]]))
@@ -95,6 +103,9 @@ def replay_case(case):
             if focus in ("C12", "C03"):
                 fails.append("step %d %s: model %s, code %s%s" % (step, json.dumps(ev, sort_keys=True), ev["out"], out,
                                                                   " (%s)" % exc if exc is not None else ""))
+            return fails
+        if ev["op"] == "treedump" and (mm.modules, xf.extra_files) != before:
+            fails.append("step %d: dump_for_tree(%s, %s, base=%s), a query, changed the manifest" % (step, ev["v"], arch[ev["a"]], "/".join(ev["base"])))
             return fails
         if out != "ok" and (mm.modules, xf.extra_files) != before:
             if focus == "C12":
